@@ -29,3 +29,65 @@ From NGO Require Import Syntax.Ast Sem.Sym Sem.Sat Link.Ground.
 Theorem C13_supported_nonground : forall (sym_lt : sym -> sym -> Prop) (P : program) (I : list gatom) (T : interp) (a : gatom), simple_prog P = true -> stable sym_lt P I T -> T a -> In a I \/ (exists (line : nat) (h : head) (b : list bodyelem) (s : subst), In (SRule line h b) P /\ head_derives s h a /\ body_sat sym_lt (gvars_rule h b) T T s b).
 Proof. exact (@supported_nonground). Qed.
 Print Assumptions C13_supported_nonground.
+
+From NGO Require Import Sem.Sym Sem.Sat Sem.Cost Link.Equiv Link.SumChainsSem.
+
+Theorem C13_telescope_sum : forall l : list Z, telescope l = last l 0%Z.
+Proof. exact (@SumChainsSem.telescope_sum). Qed.
+Print Assumptions C13_telescope_sum.
+
+Theorem C13_telescope_sum_sorted : forall (l : list Z) (k : nat), Sorted.StronglySorted Z.lt l -> k < Datatypes.length l -> telescope (firstn (S k) l) = nth k l 0%Z.
+Proof. exact (@SumChainsSem.telescope_sum_sorted). Qed.
+Print Assumptions C13_telescope_sum_sorted.
+
+Theorem C13_supported_x : forall (sym_lt : Ast.sym -> Ast.sym -> Prop) (P : list Ast.stmt) (I : list gatom) (T : interp) (a : gatom), sym_order sym_lt -> (forall (line : nat) (h : Ast.head) (b : list Ast.bodyelem), In (Ast.SRule line h b) P -> xhead (gpred a) h) -> stable sym_lt P I T -> T a -> In a I \/ (exists (line : nat) (h : Ast.head) (b : list Ast.bodyelem) (s : subst), In (Ast.SRule line h b) P /\ derives_x sym_lt T (gvars_rule h b) s h a /\ body_sat sym_lt (gvars_rule h b) T T s b).
+Proof. exact (@SumChainsSem.supported_x). Qed.
+Print Assumptions C13_supported_x.
+
+Theorem C13_chain_meaning : forall (sym_lt : Ast.sym -> Ast.sym -> Prop) (gs : list string), NoDup gs -> (forall x : string, In x gs -> ~ In x ChainSemGrouped.reserved) -> forall (p ch nx : string) (P : list Ast.stmt) (I : list (string * list Ast.sym)) (T : interp), sym_order sym_lt -> (forall (line : nat) (h : Ast.head) (b : list Ast.bodyelem), In (Ast.SRule line h b) P -> xhead (ch, ChainSemGrouped.k1 gs) h) -> In (chain_rule_base_g gs p ch) P -> In (chain_rule_step_g gs ch nx) P -> (forall (line : nat) (h : Ast.head) (b : list Ast.bodyelem), In (Ast.SRule line h b) P -> In (ch, ChainSemGrouped.k1 gs) (ChainSem.head_names h) -> Ast.SRule line h b = chain_rule_base_g gs p ch \/ Ast.SRule line h b = chain_rule_step_g gs ch nx) -> (forall vs : list Ast.sym, Datatypes.length vs = ChainSemGrouped.k1 gs -> ~ In (ch, vs) I) -> stable sym_lt P I T -> forall g : list Ast.sym, Datatypes.length g = Datatypes.length gs -> forall D : list Ast.sym, Sorted.StronglySorted sym_lt D -> (forall v : Ast.sym, T (p, g ++ v :: nil) -> In v D) -> (forall a b : Ast.sym, T (nx, g ++ a :: b :: nil) <-> Chain.consecutive Ast.sym D a b) -> forall d : Ast.sym, T (ch, g ++ d :: nil) <-> In d D /\ (exists v : Ast.sym, T (p, g ++ v :: nil) /\ (d = v \/ sym_lt d v)).
+Proof. exact (@SumChainsSem.chain_meaning). Qed.
+Print Assumptions C13_chain_meaning.
+
+Theorem C13_chain_pred_meaning : forall (sym_lt : Ast.sym -> Ast.sym -> Prop) (gs : list string), NoDup gs -> (forall x : string, In x gs -> ~ In x ChainSemGrouped.reserved) -> forall (dom mn nx p ch : string) (P : Ast.program) (I : list (string * list Ast.sym)) (T : interp), sym_order sym_lt -> xfrag P ((mn, ChainSemGrouped.k1 gs) :: (nx, ChainSemGrouped.k2 gs) :: (ch, ChainSemGrouped.k1 gs) :: nil) -> In (ChainSemGrouped.min_rule_g gs dom mn) P -> In (ChainSemGrouped.next_rule_base_g gs dom mn nx) P -> In (ChainSemGrouped.next_rule_step_g gs dom nx) P -> In (chain_rule_base_g gs p ch) P -> In (chain_rule_step_g gs ch nx) P -> (forall (line : nat) (h : Ast.head) (b : list Ast.bodyelem), In (Ast.SRule line h b) P -> In (mn, ChainSemGrouped.k1 gs) (ChainSem.head_names h) -> Ast.SRule line h b = ChainSemGrouped.min_rule_g gs dom mn) -> (forall (line : nat) (h : Ast.head) (b : list Ast.bodyelem), In (Ast.SRule line h b) P -> In (nx, ChainSemGrouped.k2 gs) (ChainSem.head_names h) -> Ast.SRule line h b = ChainSemGrouped.next_rule_base_g gs dom mn nx \/ Ast.SRule line h b = ChainSemGrouped.next_rule_step_g gs dom nx) -> (forall (line : nat) (h : Ast.head) (b : list Ast.bodyelem), In (Ast.SRule line h b) P -> In (ch, ChainSemGrouped.k1 gs) (ChainSem.head_names h) -> Ast.SRule line h b = chain_rule_base_g gs p ch \/ Ast.SRule line h b = chain_rule_step_g gs ch nx) -> (forall vs : list Ast.sym, Datatypes.length vs = ChainSemGrouped.k1 gs -> ~ In (mn, vs) I) -> (forall vs : list Ast.sym, Datatypes.length vs = ChainSemGrouped.k2 gs -> ~ In (nx, vs) I) -> (forall vs : list Ast.sym, Datatypes.length vs = ChainSemGrouped.k1 gs -> ~ In (ch, vs) I) -> stable sym_lt P I T -> forall g : list Ast.sym, Datatypes.length g = Datatypes.length gs -> (exists l : list Ast.sym, forall v : Ast.sym, T (dom, g ++ v :: nil) <-> In v l) -> (forall v : Ast.sym, T (p, g ++ v :: nil) -> T (dom, g ++ v :: nil)) -> exists D : list Ast.sym, Sorted.StronglySorted sym_lt D /\ (forall v : Ast.sym, T (dom, g ++ v :: nil) <-> In v D) /\ (forall v : Ast.sym, T (mn, g ++ v :: nil) <-> hd_error D = Some v) /\ (forall a b : Ast.sym, T (nx, g ++ a :: b :: nil) <-> Chain.consecutive Ast.sym D a b) /\ (forall d : Ast.sym, T (ch, g ++ d :: nil) <-> In d D /\ (exists v : Ast.sym, T (p, g ++ v :: nil) /\ (d = v \/ sym_lt d v))).
+Proof. exact (@SumChainsSem.chain_pred_meaning). Qed.
+Print Assumptions C13_chain_pred_meaning.
+
+Theorem C13_chain_sum_is_max : forall (T : interp) (ch nx : string) (g r : list Ast.sym) (DZ : list Z) (m : Z), group_sem T ch nx g DZ m -> exists l : list (list Ast.sym), enumerates (new T ch nx g r) l /\ sum_of l = m.
+Proof. exact (@SumChainsSem.chain_sum_is_max). Qed.
+Print Assumptions C13_chain_sum_is_max.
+
+Theorem C13_sum_chain_value : forall (T : interp) (p ch nx : string) (g r : list Ast.sym) (DZ : list Z) (m : Z), group_sem T ch nx g DZ m -> T (p, g ++ Ast.SNum m :: nil) -> (forall v : Ast.sym, T (p, g ++ v :: nil) -> v = Ast.SNum m) -> exists lo ln : list (list Ast.sym), enumerates (orig T p g r) lo /\ enumerates (new T ch nx g r) ln /\ sum_of lo = sum_of ln /\ sum_of lo = m.
+Proof. exact (@SumChainsSem.sum_chain_value). Qed.
+Print Assumptions C13_sum_chain_value.
+
+Theorem C13_sum_chain_agg : forall (T : interp) (p ch nx : string) (Ctx : list Ast.sym -> list Ast.sym -> Prop) (sym_lt : Ast.sym -> Ast.sym -> Prop) (Others : tupset), (forall g r : list Ast.sym, Ctx g r -> group_ok T p ch nx g) -> (forall g r : list Ast.sym, Ctx g r -> (forall v : Ast.sym, ~ T (p, g ++ v :: nil)) -> forall d : Ast.sym, ~ T (ch, g ++ d :: nil)) -> (forall g g' r : list Ast.sym, Ctx g r -> Ctx g' r -> g = g') -> (exists L : list (list Ast.sym * list Ast.sym), forall g r : list Ast.sym, Ctx g r -> (exists v : Ast.sym, T (p, g ++ v :: nil)) -> In (g, r) L) -> (forall tv : list Ast.sym, Orig T p Ctx tv -> Others tv -> False) -> (forall tv : list Ast.sym, New T ch nx Ctx tv -> Others tv -> False) -> forall v : Ast.sym, agg_value sym_lt Ast.FSum (fun tv : list Ast.sym => Orig T p Ctx tv \/ Others tv) v <-> agg_value sym_lt Ast.FSum (fun tv : list Ast.sym => New T ch nx Ctx tv \/ Others tv) v.
+Proof. exact (@SumChainsSem.sum_chain_agg). Qed.
+Print Assumptions C13_sum_chain_agg.
+
+Theorem C13_sum_chain_elems : forall (sym_lt : Ast.sym -> Ast.sym -> Prop) (T : interp) (p ch nx : string) (gs : list string) (lv pv : string) (rs : list Ast.term) (cs : list Ast.lit) (G : list string), fresh gs rs cs G lv -> fresh gs rs cs G pv -> lv <> pv -> forall (prj : string) (es : list Ast.belem) (s : subst), (forall g r : list Ast.sym, ctx sym_lt T gs rs cs G s g r -> group_ok T p ch nx g) -> (forall g r : list Ast.sym, ctx sym_lt T gs rs cs G s g r -> (forall v : Ast.sym, ~ T (p, g ++ v :: nil)) -> forall d : Ast.sym, ~ T (ch, g ++ d :: nil)) -> (forall g g' r : list Ast.sym, ctx sym_lt T gs rs cs G s g r -> ctx sym_lt T gs rs cs G s g' r -> g = g') -> (exists L : list (list Ast.sym * list Ast.sym), forall g r : list Ast.sym, ctx sym_lt T gs rs cs G s g r -> (exists v : Ast.sym, T (p, g ++ v :: nil)) -> In (g, r) L) -> (forall (g r : list Ast.sym) (n : Ast.sym), ctx sym_lt T gs rs cs G s g r -> T (prj, g ++ n :: nil) <-> (exists q : Ast.sym, T (nx, g ++ q :: n :: nil))) -> (forall tv : list Ast.sym, AggSem.elems_tuples sym_lt G T T s (orig_elem p gs lv rs cs :: nil) tv -> AggSem.elems_tuples sym_lt G T T s es tv -> False) -> (forall tv : list Ast.sym, AggSem.elems_tuples sym_lt G T T s (elem_step ch nx gs lv pv rs cs :: elem_first_proj ch nx gs lv rs cs prj :: nil) tv -> AggSem.elems_tuples sym_lt G T T s es tv -> False) -> forall v : Ast.sym, agg_value sym_lt Ast.FSum (AggSem.elems_tuples sym_lt G T T s (orig_elem p gs lv rs cs :: es)) v <-> agg_value sym_lt Ast.FSum (AggSem.elems_tuples sym_lt G T T s (elem_step ch nx gs lv pv rs cs :: elem_first_proj ch nx gs lv rs cs prj :: es)) v.
+Proof. exact (@SumChainsSem.sum_chain_elems). Qed.
+Print Assumptions C13_sum_chain_elems.
+
+Theorem C13_sumplus_chain_value : forall (T : interp) (p ch nx : string) (g r : list Ast.sym) (DZ : list Z) (m : Z), group_sem T ch nx g DZ m -> (forall z : Z, In z DZ -> (0 <= z)%Z) -> T (p, g ++ Ast.SNum m :: nil) -> (forall v : Ast.sym, T (p, g ++ v :: nil) -> v = Ast.SNum m) -> exists lo ln : list (list Ast.sym), enumerates (orig T p g r) lo /\ enumerates (new T ch nx g r) ln /\ sumplus_of lo = sumplus_of ln.
+Proof. exact (@SumChainsSem.sumplus_chain_value). Qed.
+Print Assumptions C13_sumplus_chain_value.
+
+Theorem C13_no_at_most_one_refuted : (exists lo : list (list Ast.sym), enumerates (orig Refutations.Ta "p" Refutations.g7 Refutations.g7) lo /\ sum_of lo = 4%Z) /\ (exists ln : list (list Ast.sym), enumerates (new Refutations.Ta "ch" "nx" Refutations.g7 Refutations.g7) ln /\ sum_of ln = 3%Z) /\ ~ (exists lo ln : list (list Ast.sym), enumerates (orig Refutations.Ta "p" Refutations.g7 Refutations.g7) lo /\ enumerates (new Refutations.Ta "ch" "nx" Refutations.g7 Refutations.g7) ln /\ sum_of lo = sum_of ln).
+Proof. exact (@SumChainsSem.Refutations.no_at_most_one_refuted). Qed.
+Print Assumptions C13_no_at_most_one_refuted.
+
+Theorem C13_sumplus_negative_minimum_refuted : forall sym_lt : Ast.sym -> Ast.sym -> Prop, agg_value sym_lt Ast.FSumPlus (orig Refutations.Tc "p" Refutations.g7 Refutations.g7) (Ast.SNum 2) /\ agg_value sym_lt Ast.FSumPlus (new Refutations.Tc "ch" "nx" Refutations.g7 Refutations.g7) (Ast.SNum 5) /\ agg_value sym_lt Ast.FSum (orig Refutations.Tc "p" Refutations.g7 Refutations.g7) (Ast.SNum 2) /\ agg_value sym_lt Ast.FSum (new Refutations.Tc "ch" "nx" Refutations.g7 Refutations.g7) (Ast.SNum 2).
+Proof. exact (@SumChainsSem.Refutations.sumplus_negative_minimum_refuted). Qed.
+Print Assumptions C13_sumplus_negative_minimum_refuted.
+
+Theorem C13_non_integer_domain_refuted : forall sym_lt : Ast.sym -> Ast.sym -> Prop, agg_value sym_lt Ast.FSum (orig Refutations.Td "p" Refutations.g7 Refutations.g7) (Ast.SNum 5) /\ agg_value sym_lt Ast.FSum (new Refutations.Td "ch" "nx" Refutations.g7 Refutations.g7) (Ast.SNum 0).
+Proof. exact (@SumChainsSem.Refutations.non_integer_domain_refuted). Qed.
+Print Assumptions C13_non_integer_domain_refuted.
+
+Theorem C13_model_sum : SumChains.execute ModelRun.P_sum nil ModelRun.order_sum = Ast.Ok ModelRun.Q_sum.
+Proof. exact (@SumChainsSem.ModelRun.model_sum). Qed.
+Print Assumptions C13_model_sum.
+
+Theorem C13_ex_pass_sound_partial : forall sym_lt : Ast.sym -> Ast.sym -> Prop, sym_order sym_lt -> exists Q : list Ast.stmt, SumChains.execute ModelRun.P_sum nil ModelRun.order_sum = Ast.Ok Q /\ Q = ModelRun.Q_sum /\ (forall (I : list gatom) (T' : interp), Example.inst_ok I -> stable sym_lt Example.Q_norm I T' -> stable sym_lt ModelRun.P_sum I (restr Example.Vorig T') /\ (forall S : Ast.sym, T' ("tot", S :: nil) <-> agg_value sym_lt Ast.FSum (Example.orig_set T') S)).
+Proof. exact (@SumChainsSem.Example.ex_pass_sound_partial). Qed.
+Print Assumptions C13_ex_pass_sound_partial.
